@@ -123,6 +123,9 @@ func childTTY(args []string) int {
 	if strings.Contains(mode, "inputtty") {
 		opts = append(opts, tea.WithInputTTY())
 	}
+	if strings.Contains(mode, "withstdin") {
+		opts = append(opts, tea.WithInput(os.Stdin)) // the caller's own input (a pipe here): not a terminal
+	}
 	switch mode {
 	case "nohandler":
 		opts = append(opts, tea.WithoutSignalHandler())
@@ -445,6 +448,7 @@ func scenPty(out *scenOut, rr *rng, thorough bool) {
 		defer func() { <-sem }()
 		ptyStaleSize(out)
 		ptyResizeAfterExec(out)
+		ptySizeWithPipeInput(out)
 	}()
 	reps := 3
 	if thorough {
@@ -802,4 +806,46 @@ func (r *ptyRun) linesWith(sub string) []string {
 		}
 	}
 	return out
+}
+
+// ptySizeWithPipeInput: the OUTPUT is a terminal, the input the program was given
+// (WithInput(os.Stdin), stdin a pipe: `producer | app`) is not. The window size is a matter of the
+// output: reported at start-up, after every resize, on every WindowSize command.
+func ptySizeWithPipeInput(out *scenOut) {
+	desc := "output is a terminal (100x30), input is a pipe given with WithInput: start-up size, a resize, a WindowSize command"
+	r, err := startPtyChild("pipein-withstdin", 100, 30)
+	if err != nil {
+		return
+	}
+	defer r.cleanup()
+	out.record("size-with-pipe-input", desc)
+	if !r.waitLog("size ", 5*time.Second) {
+		out.fail(finding{Property: "C18", Class: "new", What: "no WindowSizeMsg at start-up although the output is a terminal (the input is a pipe)", Input: desc})
+		return
+	}
+	lastIs := func(w, h int) bool {
+		s := r.sizes()
+		return len(s) > 0 && s[len(s)-1] == fmt.Sprintf("%d %d", w, h)
+	}
+	if !lastIs(100, 30) {
+		out.fail(finding{Property: "C18", Class: "new", What: "the start-up WindowSizeMsg does not carry the true size", Input: desc, Expected: "100 30", Observed: strings.Join(r.sizes(), ", ")})
+	}
+	time.Sleep(40 * time.Millisecond)
+	setWinsize(r.pair.master, 80, 24)
+	if !waitFor(3*time.Second, func() bool { return lastIs(80, 24) }) {
+		out.fail(finding{Property: "C18", Class: "new", What: "a resize was not reported to Update (terminal output, pipe input)", Input: desc, Expected: "last size 80 24", Observed: strings.Join(r.sizes(), ", ")})
+		return
+	}
+	n := len(r.sizes())
+	if len(r.keep) >= 2 {
+		r.keep[1].Write([]byte("w"))
+		if !waitFor(3*time.Second, func() bool { return len(r.sizes()) > n && lastIs(80, 24) }) {
+			out.fail(finding{Property: "C18", Class: "new", What: "a WindowSize command was not answered (terminal output, pipe input)", Input: desc, Observed: strings.Join(r.sizes(), ", ")})
+		}
+		r.keep[1].Write([]byte("q"))
+	}
+	select {
+	case <-r.exited:
+	case <-time.After(3 * time.Second):
+	}
 }
